@@ -80,6 +80,25 @@ PINNED = [
     ("unsupported_mockall_on_impl", "#[::entrait::entrait(\n/*@off*/ mockall\n)]\nimpl T for X {}", r"Unsupported option"),
     ("custom_delegate_without_target", "#[::entrait::entrait(\n/*@off*/ delegate_by\n = Custom)]\ntrait T {}", r"custom delegating trait without a custom trait"),
     ("target_without_delegate", "#[::entrait::entrait(TImpl)] /*@off*/\ntrait T {}", r"Missing delegate_by"),
+    # the same misuses in other spellings / on other targets
+    ("target_with_delegate_by_self", "#[::entrait::entrait(TImpl, delegate_by = Self)] /*@off*/\ntrait T { fn f(&self); }", r"Missing delegate_by"),
+    ("pub_target_without_delegate", "#[::entrait::entrait(pub TImpl, mockall = false)] /*@off*/\npub trait T { fn f(&self); }", r"Missing delegate_by"),
+    ("custom_delegate_without_target_opts", "#[::entrait::entrait(?Send,\n/*@off*/ delegate_by\n = Custom, unimock = false)]\ntrait T { async fn f(&self); }", r"custom delegating trait without a custom trait"),
+    ("missing_deps_in_mod", "#[::entrait::entrait(Foo)]\nmod m { pub fn\n/*@off*/ no_receiver\n() {} pub fn ok<D>(d: &D) {} }", r"must have a dependency 'receiver'"),
+    ("missing_deps_in_impl", "#[::entrait::entrait]\nimpl T for X { fn\n/*@off*/ no_receiver\n() {} }", r"must have a dependency 'receiver'"),
+    ("self_receiver_in_mod", "#[::entrait::entrait(Foo)]\nmod m { pub fn f(\n/*@off*/ self\n, a: i32) {} }", r"cannot have a self receiver"),
+    ("self_receiver_in_impl", "#[::entrait::entrait(ref)]\nimpl T for X { fn f(\n/*@off*/ &self\n) {} }", r"cannot have a self receiver"),
+    ("self_receiver_no_deps", "#[::entrait::entrait(Foo, no_deps)]\nfn f(\n/*@off*/ &mut self\n, a: i32) {}", r"cannot have a self receiver"),
+    ("concrete_in_mod_second_fn", "#[::entrait::entrait(Foo)]\nmod m { pub fn ok<D>(d: &D) {} pub fn f(d: &\n/*@off*/ some::Concrete\n) {} }", r"concrete dependencies in a module"),
+    # (an unknown word in *first* position on a trait is grammatically the delegation-target name, so it is placed second)
+    ("unknown_option_on_trait", "#[::entrait::entrait(?Send,\n/*@off*/ bogus\n = true)]\ntrait T {}", r'Unkonwn entrait option "bogus"'),
+    ("unknown_option_on_impl", "#[::entrait::entrait(ref\n/*@off*/ bogus\n)]\nimpl T for X {}", r'Unkonwn entrait option "bogus"'),
+    ("unknown_option_on_mod", "#[::entrait::entrait(Foo, export,\n/*@off*/ nodeps\n)]\nmod m {}", r'Unkonwn entrait option "nodeps"'),
+    ("unsupported_delegate_on_mod", "#[::entrait::entrait(Foo,\n/*@off*/ delegate_by\n = Self)]\nmod m {}", r"Unsupported option"),
+    ("unsupported_export_on_impl", "#[::entrait::entrait(\n/*@off*/ export\n)]\nimpl T for X {}", r"Unsupported option"),
+    ("unsupported_send_on_impl", "#[::entrait::entrait(ref ?\n/*@off*/ Send\n)]\nimpl T for X {}", r"Unsupported option"),
+    ("unsupported_mock_api_on_impl", "#[::entrait::entrait(\n/*@off*/ mock_api = M\n)]\nimpl T for X {}", r"Unsupported option"),
+    ("unsupported_nodeps_on_trait_with_target", "#[::entrait::entrait(TImpl, delegate_by = DelegateT,\n/*@off*/ no_deps\n = false)]\ntrait T {}", r"Unsupported option"),
 ]
 
 
